@@ -112,6 +112,11 @@ def decVerdict (mDec : Option Bytes) (obs : String) : String :=
       | none, none => "OK"
   | none => "BADOP obs"
 
+def validDigitD (b : Nat) (c : Char) : Bool :=
+  match radixVal c with
+  | some d => decide (d < b)
+  | none => false
+
 def stepRadix (dir : String) (args : List String) (obs : String) : String :=
   match dir, args with
   | "rt", [b, n] =>
@@ -151,16 +156,14 @@ def stepRadix (dir : String) (args : List String) (obs : String) : String :=
         match impl with
         | none => "BADOP obs"
         | some impl =>
-          -- the property's reading of "malformed": empty, a character outside the table, or a
-          -- digit that is not below the base.  fq accepts the first and the last (known findings).
+          -- independent reading of "malformed": empty, a character outside the table, or a digit
+          -- that is not below the base  (radix-digit-not-below-base / radix-empty-string were
+          -- known findings until /repo 1a4271bf; now a PROPFAIL again)
           let div := if impl == m then "" else s!" ;DIVERGE model={m}"
-          let badDigit := cs.any (fun c => match radixVal c with | some d => decide (b ≤ d) | none => false)
-          let outside := cs.any (fun c => (radixVal c).isNone)
+          let malformed := cs.isEmpty || cs.any (fun c => !validDigitD b c)
           match impl with
           | some _ =>
-            if outside then s!"PROPFAIL malformed-input-accepted{div}"
-            else if cs.isEmpty then s!"KNOWN radix-empty-string from_radix of the empty string is a number{div}"
-            else if badDigit then s!"KNOWN radix-digit-not-below-base a digit >= base is accepted{div}"
+            if malformed then s!"PROPFAIL malformed-input-accepted{div}"
             else if impl == m then "OK"
             else match m with
               | some mv => mkVerdict (some "wrong-value") (some s!"{mv}")
